@@ -368,7 +368,7 @@ def check_roundtrip(ctx, label, o, how):
                        'what': label, 'args': [how], 'expected': 'reloaded object equal to the original',
                        'actual': 'exception %r' % (ex,), 'how_to_replay': how})
         return False
-    d = obj_diff(o, o2)
+    d = report_recorded(ctx, obj_diff(o, o2), label, how)
     if d:
         field = d[0][0]
         ctx.violation({'fn': 'ObjectFile.save/load', 'key': 'field:' + field_class(field), 'what': label,
@@ -377,6 +377,32 @@ def check_roundtrip(ctx, label, o, how):
                        'all_differences': [list(x) for x in d[:10]], 'how_to_replay': how})
         return False
     return True
+
+
+# differences that belong to a recorded defect of debuginfo.py (see known_findings.json / fixes/):
+# they are reported under their own record (so the known-finding entry can match them exactly) and
+# removed from the list, every other difference is still a violation
+RECORDED = [
+    ('fprel-size', lambda p: p.startswith('debug_info') and p.endswith('.address.offset.size')),
+    ('base-encoding', lambda p: p.startswith('debug_info') and p.endswith('.encoding')),
+]
+
+
+def report_recorded(ctx, diffs, label, how):
+    rest = []
+    hit = {}
+    for d in diffs:
+        for name, pred in RECORDED:
+            if pred(str(d[0])):
+                hit.setdefault(name, d)
+                break
+        else:
+            rest.append(d)
+    for name, d in hit.items():
+        ctx.violation({'fn': 'debuginfo.serialize/deserialize', 'defect': name, 'key': 'debug:' + name,
+                       'what': label, 'args': [how], 'expected': '%s = %s' % (d[0], d[1]),
+                       'actual': '%s = %s' % (d[0], d[2]), 'how_to_replay': how})
+    return rest
 
 
 def field_class(path):
@@ -583,7 +609,7 @@ def oracle(ctx, arch_ids, deep, comp_dbg=None):
             ar = Archive.load(io.StringIO(txt))
             back = list(ar)
             diffs = [('count', len(group), len(back))] if len(back) != len(group) else \
-                [d for a, b in zip(group, back) for d in obj_diff(a, b)]
+                [d for a, b in zip(group, back) for d in report_recorded(ctx, obj_diff(a, b), 'archive member', 'archive group #%d' % k)]
         except Exception as ex:   # noqa: BLE001
             diffs = [('exception', '', repr(ex))]
         if diffs:
@@ -605,7 +631,7 @@ def oracle(ctx, arch_ids, deep, comp_dbg=None):
         n += 1
         try:
             l2 = link([reload_obj(o) for o in group], partial_link=True, debug=True)
-            d = obj_diff(l1, l2)
+            d = report_recorded(ctx, obj_diff(l1, l2), 'link(reloaded) vs link(original)', 'link for %s' % a)
         except Exception as ex:   # noqa: BLE001
             d = [('exception', '', repr(ex))]
         if d:
@@ -651,24 +677,26 @@ def run(ctx):
         imports = ['Lib.Json', 'Model.ObjectFile']
         # ---- (d) small functions
         cases, recs = [], []
-        pool = boundary_pool(70) + [rng.randrange(-(1 << 80), 1 << 80) for _ in range(40)] + list(range(-40, 300))
+        pool = boundary_pool(70) + [rng.randrange(-(1 << 80), 1 << 80) for _ in range(20)] + list(range(-20, 40))
+        if not ctx.quick():
+            pool += list(range(-300, 1100)) + [rng.randrange(-(1 << 200), 1 << 200) for _ in range(200)]
         for z in sorted(set(pool)):
-            cases.append(('py_hex %s' % wrapz(z), hex(z)))
-            recs.append(('hex', z))
-            cases.append(('make_num (py_hex %s)' % wrapz(z), call_impl(make_num, [hex(z)])))
-            recs.append(('make_num(hex)', z))
+            cases.append(('(py_hex %s, make_num (py_hex %s))' % (wrapz(z), wrapz(z)),
+                          (hex(z), call_impl(make_num, [hex(z)]))))
+            recs.append(('hex / make_num(hex)', z))
         texts = ['0x1F', '0xabc', '0xABC', '-0x10', '-0x0', '$ff', '$', '0b101', '0b', '0b2', '%11', '%', '%12', '12',
                  '-12', '+12', '0', '007', '', '-', '0x', '-0x', '0xg', 'zz', '1e3', '12a', 'x', '0X1F', '0B1', '-$1',
                  '9' * 30, '0x' + 'f' * 40, '-0x' + '8' + '0' * 20, 'a', '$-1' if False else '$g', '0xx1', '--1']
         for t in texts:
             cases.append(('make_num %s' % coq_str(t), call_impl(make_num, [t], diag=())))
             recs.append(('make_num', t))
-        for ln in list(range(0, 72)) + [89, 90, 91, 120, 121]:
+        lens = [0, 1, 2, 15, 29, 30, 31, 32, 59, 60, 61, 62, 70, 89, 90, 91, 121] if ctx.quick() else \
+            list(range(0, 130)) + [299, 300, 301]
+        for ln in lens:
             bs = bytes(rng.randrange(256) for _ in range(ln))
-            cases.append(('bin2asc %s' % to_term(bs), json_val(bin2asc(bs))))
-            recs.append(('bin2asc', ln))
-            cases.append(('asc2bin (bin2asc %s)' % to_term(bs), OkV(bytes(asc2bin(bin2asc(bs))))))
-            recs.append(('asc2bin.bin2asc', ln))
+            cases.append(('let b := %s in (bin2asc b, asc2bin (bin2asc b))' % to_term(bs),
+                          (json_val(bin2asc(bs)), OkV(bytes(asc2bin(bin2asc(bs)))))))
+            recs.append(('bin2asc / asc2bin', ln))
         for bad in ['abc', '0g', 'ABCDEF', 'aBcD', '', ['00ff', 'A0'], ['00', 5], ['0'], [], 5, None, {'a': 1}, [['00']]]:
             r = call_impl(asc2bin, [bad], diag=())
             if isinstance(r, OkV):
@@ -682,7 +710,7 @@ def run(ctx):
 
         # ---- (a) serialize, (c) deserialize on objects
         real = [(lbl, o) for lbl, o in compiled_objects(ctx, True)]
-        gen = [('gen#%d' % k, gen_object(ctx, ids)) for k in range(260 if ctx.quick() else 1200)]
+        gen = [('gen#%d' % k, gen_object(ctx, ids)) for k in range(110 if ctx.quick() else 1200)]
         cases, recs = [], []
         seen = set()
         nontriv = 0
@@ -712,7 +740,7 @@ def run(ctx):
             cases.append(('let o := %s in (serialize o, deserialize (serialize o))' % obj_term(o),
                           (json_val(d), impl_deserialize(d))))
             recs.append(('serialize / deserialize', lbl))
-        for k in range(12 if ctx.quick() else 80):
+        for k in range(9 if ctx.quick() else 80):
             o = gen_object(ctx, ids, small=True)
             if o.sections and o.symbols:
                 mut_src.append(('small#%d' % k, o.serialize()))
@@ -724,8 +752,8 @@ def run(ctx):
                 cases.append(('deserialize (%s)' % json_term(m), r))
                 recs.append(('deserialize mutated: ' + ml, lbl))
         # archives
-        for k in range(6):
-            group = [o for _, o in rng.sample(gen, 2)] + [o for _, o in rng.sample(real, 1)]
+        for k in range(4):
+            group = [o for _, o in rng.sample(gen, 2)] + [o for _, o in rng.sample([x for x in real if typed(x[1])], 1)]
             ds = []
             for o in group:
                 d = o.serialize(); d.pop('debug', None); ds.append(d)
